@@ -203,7 +203,9 @@ func mergeListMatch(obj []any, m any, v map[string]any) ([]any, error) {
 		if match(v2, m) {
 			found = true
 
-			v2, err := merge(v2, val)
+			// Every matched entry gets its own copy of the patch: merge may
+			// keep parts of it in the result, or edit it ($replace).
+			v2, err := merge(v2, copyTree(val))
 			if err != nil {
 				return nil, err
 			}
